@@ -100,7 +100,7 @@ func genMux(seed uint64, n int, maxOps int, demux bool, emit func(interface{})) 
 			case x < 25 || (churn && x < 75):
 				sc.Ops = append(sc.Ops, muxOp{Op: "tables"})
 			case x < 28:
-				sc.Ops = append(sc.Ops, muxOp{Op: "packet", Kind: r.pickS("null", "short", "pcr", "toobig", "toobigaf", "nopltoobig", "hugeaf", "hugeafonly", "hugestuff", "privlen")})
+				sc.Ops = append(sc.Ops, muxOp{Op: "packet", Kind: r.pickS("null", "short", "pcr", "toobig", "toobigaf", "nopltoobig", "hugeaf", "hugeafonly", "hugestuff", "privlen", "negstuff", "negstuff", "nilaf")})
 			case x < 30:
 				sc.Ops = append(sc.Ops, muxOp{Op: "data", PID: 999, Len: 10, Hdr: "pts", AF: "none"})
 			default:
